@@ -1,7 +1,10 @@
 import GrinVerif.Model.ChainOrphanAge
+import GrinVerif.Gen.Orphans
+import GrinVerif.Gen.Consts
 /-! The age rule of the orphan pool (`Model/ChainOrphanAge.lean`; C03 assumption "no orphan waits
 longer than 300 s"): what the rule does when it fires, and that it fires ONLY beyond the capacity.
-Not tied to the real pool by a run (300 s of wall time); the clock-free part of the same function
+Not tied to the real pool by a run (the pool reads `Instant::now()` only: 300 s of wall time); tied to
+the source by the regenerated shape of `OrphanBlockPool::add` (`orphan_pool_shape_is_model`); the clock-free part of the same function
 is (`chain opool` lines, Props/C03Orphans.lean). -/
 namespace GV.Props.C03OrphanAge
 open GV GV.Chain
@@ -83,5 +86,39 @@ example :
     let P : OPoolT := { orphans := [(1, 5, 390), (2, 6, 395)], heightIdx := [(5, [1]), (6, [2])] }
     (P.add 2 300 400 3 7).erase.orphans = (P.erase.add 2 3 7).orphans ∧
     (P.add 2 300 400 3 7).erase.evicted = (P.erase.add 2 3 7).evicted := by decide
+
+/-! ### the model's rule against the table regenerated from chain/src/chain.rs
+
+The pool takes an orphan's time from `Instant::now()` only (`clockIsInstantNowOnly`): no run can
+drive the age rule without waiting 300 s, so it is tied to the source by the regenerated SHAPE of
+`OrphanBlockPool::add` instead (tools/gen_orphans.py → Gen/Orphans.lean). -/
+
+/-- the pool as coded: `OPoolT.add` at the constants of the current source -/
+def addCoded (P : OPoolT) (now id h : Nat) : OPoolT :=
+  P.add GV.Gen.Orphans.MAX_ORPHAN_SIZE GV.Gen.Orphans.MAX_ORPHAN_AGE_SECS now id h
+
+/-- **shape = model**: the comparisons and the step order `OPoolT.add` / `evictLoop` transliterate
+are those of the current source - eviction opens on `len > MAX_ORPHAN_SIZE`, the age rule KEEPS
+`elapsed < MAX_ORPHAN_AGE_SECS`, the height loop stops on `len < MAX_ORPHAN_SIZE` tested AFTER the
+removal, in the order age rule, height loop, index clean-up, count; a re-offered block replaces its
+entry; the constants are 200 / 300 s and the size is the one `Gen/Consts` gives the chain model -/
+theorem orphan_pool_shape_is_model :
+    GV.Gen.Orphans.guardOp = ">" ∧ GV.Gen.Orphans.ageRetainOp = "<" ∧ GV.Gen.Orphans.breakOp = "<" ∧
+    GV.Gen.Orphans.breakAfterRemoval = true ∧
+    GV.Gen.Orphans.steps = ["age", "heights", "cleanup", "count"] ∧
+    GV.Gen.Orphans.insertReplaces = true ∧ GV.Gen.Orphans.clockIsInstantNowOnly = true ∧
+    GV.Gen.Orphans.MAX_ORPHAN_SIZE = GV.Gen.MAX_ORPHAN_SIZE ∧
+    GV.Gen.Orphans.MAX_ORPHAN_SIZE = 200 ∧ GV.Gen.Orphans.MAX_ORPHAN_AGE_SECS = 300 := by decide
+
+/-- the theorems above at the constants of the source: up to 200 entries nothing is ever evicted,
+beyond that nothing that waited 300 s or longer survives -/
+theorem coded_pool_age_rule (P : OPoolT) (now id h : Nat) :
+    ((inserted P now id h).length ≤ 200 → (addCoded P now id h).orphans = inserted P now id h) ∧
+    ((inserted P now id h).length > 200 → ∀ o ∈ (addCoded P now id h).orphans, now - o.2.2 < 300) := by
+  constructor
+  · intro hc
+    exact (add_within_capacity_keeps_stale _ _ P now id h hc).1
+  · intro hc
+    exact add_keeps_no_stale _ _ P now id h hc
 
 end GV.Props.C03OrphanAge
